@@ -81,11 +81,13 @@ CLAIMED = {
          "to back decodes to the same sequence; WriteNext on a healthy transport puts exactly the encoded item on the wire "
          "and leaves nothing behind. The model (codec + CodecConn + scripted transport) is compared with the real "
          "CodecConn over an in-memory sonic.Stream after every call (every cut offset, per-read limits, sync/async, "
-         "hostile prefixes, partial-accept and failing transports for every failure offset, parked async writes), and "
+         "hostile prefixes, partial-accept and failing transports for every failure offset, parked async writes), and over a "
+         "real sonic.Conn on loopback with a 16 KiB send buffer (items of 300 KB..4 MB: many kernel segments, would-block in "
+         "the middle of an item several times), and "
          "the extracted parser/encoder judges items, wire bytes and leftovers independently."),
    note=("Trusted: Coq kernel, translator (HeaderLen, MaxPayloadLength), extraction, harness incl. the in-memory transport "
          "(harness/drv/memstream.go, mirrored by Model/Transport.v). The model sits on the three-FIFO specification of "
-         "ByteBuffer (C09). Real sockets are covered by C02, not here."),
+         "ByteBuffer (C09). On the real socket only final outcomes are compared (the kernel chooses the segment sizes)."),
    technique="Coq refinement proof (decoder = pure parser; induction over transport segmentations; round-trip law); differential correspondence + extracted oracle"),
  "C06": dict(
    text=("Coq theorems (6, closed): over ANY segmentation of the inbound bytes by the transport (any chunking, cuts inside "
@@ -269,12 +271,13 @@ CLAIMED = {
          "(RLIMIT_NOFILE) as a failure point, the garbage collector itself, TLS dialling."),
    technique="Coq proof (registry invariant by induction over the loop model; guard invariant over descriptor-table histories; finite sweep of constructor paths) + /proc/self/fd census correspondence + GC probes"),
  "C17": dict(
-   text=("PARTIAL proof + full correspondence. Coq theorems (3, closed) about a focused model of the AsyncAdapter's single write "
+   text=("PARTIAL proof + full correspondence. Coq theorems (4, closed) about a focused model of the AsyncAdapter's single write "
          "reactor, CodecConn/ByteBuffer asynchronous write, the Stream's flush chain with waiting callers, AsyncWrite and the "
          "read path with automatic Pongs, for every history of application calls, peer events and polls with any number of "
          "bytes accepted per write call: the wire is a prefix of the frames in queue order (never interleaved or repeated); "
          "every completion registered with a flush (read continuation, or the callback of AsyncWrite/AsyncWriteFrame/"
          "AsyncFlush/AsyncClose) has run exactly once or is still held by the flush in flight (none dropped, none twice); "
+         "a message read in flight is NEVER LOST: it is registered with the poller or it is the continuation held by the flush in flight (so it runs exactly once when that flush completes) - neither direction starves the other; "
          "the pre-repair structure is REFUTED (an application write replaces the Pong flush in the adapter and the read's "
          "continuation is lost). The implementation is a real client stream after a real handshake over the real adapter on "
          "a loopback socket: every ordering of {ping, write, poll, message} sequences up to length 5 after a read, random "
@@ -282,8 +285,7 @@ CLAIMED = {
          "compared with the model and judged by an independent oracle (exactly-once, nothing dropped once settled, whole "
          "frames in order; AsyncClose with its flush in flight refuses later writes and closes)."),
    note=("Trusted: Coq kernel, extraction, harness. Frames are opaque in this model (format: C16); message reassembly and the "
-         "closing handshake are C06/C08; 'a read in flight is always armed or waiting for a flush' is not stated as an "
-         "invariant; real partial writes occur only for large frames (kernel-chosen), where only final outcomes are compared."),
+         "closing handshake are C06/C08; real partial writes occur only for large frames (kernel-chosen), where only final outcomes are compared."),
    technique="Coq proof (invariant by mutual induction over the flush/continuation functions and over histories; refutation of the pre-repair structure) + correspondence on a real socket + independent oracle"),
  "C12": dict(
    text=("PARTIAL proof + full correspondence. Coq theorems (11, closed): (datagrams) for every history of arrivals, reads "
